@@ -6,6 +6,10 @@ From SK Require Import lib.Tok lib.LGraph lib.Mono.
 From SK Require Import model.C03_Model model.C05_Model proof.C05_Proof.
 Import ListNotations.
 
+Section WithThr.
+Context {TH : Thr}.
+
+
 Section GlueEquiv.
   Variables sg pi : N -> N.
   Hypothesis sg_inj : inj sg.
@@ -97,3 +101,5 @@ Example glue_equivariant_nonvacuous :
   glue (relabel ex_pi ex_host) (relabel ex_sg ex_rc) (mv ex_sg ex_pi ex_m) = option_map (relabel ex_pi) (glue ex_host ex_rc ex_m)
   /\ glue ex_host ex_rc ex_m <> None.
 Proof. split; [vm_compute; reflexivity | vm_compute; discriminate]. Qed.
+
+End WithThr.
